@@ -1,0 +1,57 @@
+//go:build verif
+
+package group
+
+// Accessors for the C13 correspondence harness: the controllers' group tables as
+// name -> number of members (an entry with 0 members is an empty group object).
+
+// VerifC13Table returns name -> len(lns) for every group in the table.
+func (tgc *TCPGroupCtl) VerifC13Table() map[string]int {
+	tgc.mu.Lock()
+	gs := make(map[string]*TCPGroup, len(tgc.groups))
+	for n, g := range tgc.groups {
+		gs[n] = g
+	}
+	tgc.mu.Unlock()
+	out := make(map[string]int, len(gs))
+	for n, g := range gs {
+		g.mu.Lock()
+		out[n] = len(g.lns)
+		g.mu.Unlock()
+	}
+	return out
+}
+
+// VerifC13Table returns name -> len(createFuncs) for every group in the table.
+func (ctl *HTTPGroupController) VerifC13Table() map[string]int {
+	ctl.mu.Lock()
+	gs := make(map[string]*HTTPGroup, len(ctl.groups))
+	for n, g := range ctl.groups {
+		gs[n] = g
+	}
+	ctl.mu.Unlock()
+	out := make(map[string]int, len(gs))
+	for n, g := range gs {
+		g.mu.RLock()
+		out[n] = len(g.createFuncs)
+		g.mu.RUnlock()
+	}
+	return out
+}
+
+// VerifC13Table returns name -> len(lns) for every group in the table.
+func (tmgc *TCPMuxGroupCtl) VerifC13Table() map[string]int {
+	tmgc.mu.Lock()
+	gs := make(map[string]*TCPMuxGroup, len(tmgc.groups))
+	for n, g := range tmgc.groups {
+		gs[n] = g
+	}
+	tmgc.mu.Unlock()
+	out := make(map[string]int, len(gs))
+	for n, g := range gs {
+		g.mu.Lock()
+		out[n] = len(g.lns)
+		g.mu.Unlock()
+	}
+	return out
+}
